@@ -200,13 +200,20 @@ func TestC04Binary(t *testing.T) {
 			mgmt = append(mgmt, bbMgmt{After: rapid.IntRange(0, len(c.Probes)-1).Draw(t, "after"), Op: rapid.SampledFrom([]string{"update", "update", "remove", "readd", "set-admin"}).Draw(t, "mop"),
 				Via: rapid.SampledFrom([]string{"lib", "cli", "api"}).Draw(t, "via"), User: rapid.IntRange(0, len(c.Users)-1).Draw(t, "muser"), NewPW: fmt.Sprintf("changed-%d-pw", i)})
 		}
+		socketActivated := rapid.IntRange(0, 2).Draw(t, "runsa") == 0
 		cfg := bbConfig()
 		root, base, cfgFile, err := mkStore(cfg, c.Users)
 		if err != nil {
 			t.Fatalf("VERIF-INFRA %v", err)
 		}
 		defer os.RemoveAll(root)
-		a, err := startAgent(root, cfgFile, agentOpts{listeners: c.Listeners})
+		// started directly (`run`: the agent opens its listeners) or socket-activated (`runsa`: it is handed the listening sockets)
+		start := startAgent
+		if socketActivated {
+			start = startAgentSA
+			vlib.Class("agent-started:socket-activated(runsa)")
+		}
+		a, err := start(root, cfgFile, agentOpts{listeners: c.Listeners})
 		if err != nil {
 			t.Fatalf("VERIF-INFRA %v", err)
 		}
